@@ -2,6 +2,8 @@
    (Generated/TzObjKernels.lean) for the per-run differential validation of the ObjPy translator.
 
     tzgen.ical.offset <hex>                         Gen.tzical_parseOffset
+    tzgen.ical.rfc <hex>                            Gen.tzical_parseRfc (the TRANSLATED `_parse_rfc`, recurrence library accepting
+                                                    everything), printed like `ical.parse`
     tzgen.ical.seq <comps> <us:fold;us:fold;…>      a FRESH zone queried in this order through the translated
                                                     `_find_comp` (cache threaded): per query `from/to/isdst,utcoff,dst,tzname` (components named by their offsets)
                                                     (µs), then the final cache `us:fold,…|from/to/isdst,…`
@@ -20,6 +22,7 @@ import DateutilVerif.Ops.ICal
 import DateutilVerif.Ops.TzStr
 import DateutilVerif.Ops.TzGen
 import DateutilVerif.Generated.TzObjKernels
+import DateutilVerif.Generated.TzRfcKernels
 
 namespace Ops.TzObjGen
 open Wire
@@ -102,6 +105,11 @@ def handle (op : String) (args : List String) : Option String :=
       let sa ← parseHexBytes? sa; let da ← parseHexBytes? da
       let z := { z with stdAbbr := sa, dstAbbr := da }
       pure ("ok " ++ " ".intercalate (ws.map (localWall z)))
+  | "tzgen.ical.rfc", [h] => do
+      let s ← parseHexString? h
+      some (match Gen.tzical_parseRfc ICal.acceptAll s.toList with
+        | .ok st => "ok " ++ toString st.vtz.length ++ " " ++ ";".intercalate (st.vtz.map Ops.ICal.showVtz)
+        | .error e => "err " ++ e.name)
   | "tzgen.ical.offset", [h] => do
       let s ← parseHexString? h
       some (Py.showR showInt (Gen.tzical_parseOffset s.toList))
